@@ -6,7 +6,8 @@ package c10
 // frames down) may spend that allowance or touch the holder's tokens.
 //
 //   op   : tkset <token 0=WFX|1=TST> <acct> <token balance> <ERC-20 allowance to the precompile> <coins of the pair's denom>
-//          tk <token> <pair kind fx|erc20> <direct caller> <amount + fee>
+//          tk <token> <pair kind fx|erc20> <direct caller> <amount + fee>          (crossChain)
+//          tkb <token> <pair kind> <direct caller> <amount>                        (bridgeCall with a one-token list; refund address = somebody else)
 //   impl : <ok|err> t=<token balance of the direct caller> a=<its allowance to the precompile>     (after the real signed tx)
 //   model: Gen.C10Tok.erc20Leg (handlerERC20Token with convertERC20 inlined, regenerated) interpreted on the model token world
 // Monitors: after every transaction, for every account that is not the direct caller (tx origin included): token balance
@@ -186,7 +187,18 @@ func phaseTokens(t *testing.T, e *env, rng *rand.Rand, out *hx.Out) {
 			}
 			fee := big.NewInt(1)
 			amt := new(big.Int).Sub(total, fee)
+			method := "crossChain"
 			data, err := cabi.Pack("crossChain", tok, helpers.GenExternalAddr(ethtypes.ModuleName), amt, fee, fxtypes.MustStrToByte32(ethtypes.ModuleName), "")
+			if rng.Intn(4) == 0 {
+				// bridgeCall with a token list: the keeper converts the tokens of `holder` with keeper power (no ERC-20 allowance
+				// involved) — the holder must be the direct caller, whoever is named as refund address
+				method = "bridgeCall"
+				refund := e.victim.Address()
+				if rt.caller == 4 || rng.Intn(3) == 0 {
+					refund = e.other
+				}
+				data, err = cabi.Pack("bridgeCall", ethtypes.ModuleName, refund, []common.Address{tok}, []*big.Int{total}, helpers.GenHexAddress(), []byte{1}, big.NewInt(0), []byte{})
+			}
 			if err != nil {
 				t.Fatal(err)
 			}
@@ -230,7 +242,7 @@ func phaseTokens(t *testing.T, e *env, rng *rand.Rand, out *hx.Out) {
 			before := snap()
 			tr := evmx.NewTracer()
 			var res *evmtypes.MsgEthereumTxResponse
-			desc := fmt.Sprintf("crossChain(token=%s total=%s [%s]) route=%s direct caller=%d tx origin=%d", te.kinds[ti], total, class, rt.name, rt.caller, rt.origin)
+			desc := fmt.Sprintf("%s(token=%s total=%s [%s]) route=%s direct caller=%d tx origin=%d", method, te.kinds[ti], total, class, rt.name, rt.caller, rt.origin)
 			if pr := hx.Try(func() error { res, err = evmx.SendTraced(cctx, app, tx, tr); return nil }); pr != "ok" {
 				violate(out, "precompile call panicked ("+pr+"): "+desc)
 				break
@@ -247,10 +259,14 @@ func phaseTokens(t *testing.T, e *env, rng *rand.Rand, out *hx.Out) {
 				status = "err"
 			}
 			after := snap()
-			out.Emit(fmt.Sprintf("tk %d %s %d %s", ti, te.kinds[ti], rt.caller, total),
+			opw := "tk"
+			if method == "bridgeCall" {
+				opw = "tkb"
+			}
+			out.Emit(fmt.Sprintf("%s %d %s %d %s", opw, ti, te.kinds[ti], rt.caller, total),
 				fmt.Sprintf("%s t=%s a=%s", status, after[rt.caller].bal[ti], after[rt.caller].al[ti]))
-			out.Count(fmt.Sprintf("tok:%s:%s:%s:%s", te.kinds[ti], rt.name, class, status))
-			out.Nontrivial(fmt.Sprintf("tok|%s|%s|%s|%s", te.kinds[ti], rt.name, class, status))
+			out.Count(fmt.Sprintf("tok:%s:%s:%s:%s:%s", method, te.kinds[ti], rt.name, class, status))
+			out.Nontrivial(fmt.Sprintf("tok|%s|%s|%s|%s|%s", method, te.kinds[ti], rt.name, class, status))
 			for _, a := range accts {
 				for j := 0; j < 2; j++ {
 					b0, b1, a0, a1 := before[a.id].bal[j], after[a.id].bal[j], before[a.id].al[j], after[a.id].al[j]
@@ -269,7 +285,10 @@ func phaseTokens(t *testing.T, e *env, rng *rand.Rand, out *hx.Out) {
 					}
 					wantB, wantA := b0, a0
 					if status == "ok" && j == ti {
-						wantB, wantA = new(big.Int).Sub(b0, total), new(big.Int).Sub(a0, total)
+						wantB = new(big.Int).Sub(b0, total)
+						if method == "crossChain" {
+							wantA = new(big.Int).Sub(a0, total)
+						}
 					}
 					if b1.Cmp(wantB) != 0 || a1.Cmp(wantA) != 0 {
 						violate(out, fmt.Sprintf("direct caller's ERC-20 (%s) balance / allowance to the precompile after a call that ended %s: %s / %s, expected %s / %s: %s", te.kinds[j], status, b1, a1, wantB, wantA, desc))
